@@ -29,6 +29,9 @@ def correspondence(ctx, *, pkg, test, name, drivers, trivial=None, kind_of=None,
             continue
         model = ctx.read_lines(mf)
         bad = ctx.compare(ops, impl, model, label)
+        if monitor and bad:
+            # report the mismatches on which the property monitor fires first (they carry a concrete failing input)
+            bad = sorted(bad, key=lambda t: (0 if monitor(t[1], t[2]) else 1, t[0]))
         for (i, op, a, b) in bad[:5]:
             hit = monitor(op, a) if monitor else None
             found = model_is_spec or bool(hit)
